@@ -1,32 +1,261 @@
 /-
-Helper lemmas for engine `heights` (C15), part 2: the controller/store invariant `CInv` and its preservation by
-`StartNewInstance`, `UponDecided`, compaction, `SaveInstance`, `LoadHighestInstance`.
+Helper lemmas for engine `heights` (C15), part 2: the store primitives (`replaces` guard), the controller/store
+invariant `CInv` and its preservation by `StartNewInstance`, `UponDecided`, compaction, `SaveInstance`,
+`LoadHighestInstance` — for the CURRENT tree (store guard + reloaded instance kept).
 -/
 import Ssv.Proofs.Heights
 
 namespace Ssv.Heights
 
-/-- a stored record is decided, and `LongestUniqueSignersForRoundAndRoot` on its own commit container finds at least
-    the signers of its certificate (the certificate is in the container, or is the aggregate of single commits that
-    are) — unless the certificate's round is in the part that `CompactCopy` trims away (rounds below `State.Round`) -/
-def StoredWf (a : Stored) : Prop :=
-  a.inst.decided = true ∧
-  (a.inst.round ≤ a.cert.round → a.cert.signers.length ≤ longest a.inst.commits a.cert.round a.cert.root)
+/-! ## more container facts -/
 
-/-- the in-memory instance `i` carries the stored record `a` -/
-def Carries (i : Inst) (a : Stored) : Prop :=
-  i.decided = true ∧ i.round = a.inst.round ∧
-  (a.inst.round ≤ a.cert.round → a.cert.signers.length ≤ longest i.commits a.cert.round a.cert.root)
+theorem find_isSome_iff {l : List Inst} {k : Nat} : (find l k).isSome = true ↔ ∃ i ∈ l, i.height = k := by
+  constructor
+  · intro h
+    cases hf : find l k with
+    | none => rw [hf] at h; cases h
+    | some i => exact ⟨i, find_some_mem hf, find_some_height hf⟩
+  · rintro ⟨i, hi, hik⟩
+    cases hf : find l k with
+    | none => exact absurd hik ((find_none_iff.mp hf) i hi)
+    | some _ => rfl
+
+theorem replaceInst_of_none {i' : Inst} {l : List Inst} (h : find l i'.height = none) : replaceInst i' l = l := by
+  induction l with
+  | nil => rfl
+  | cons x xs ih =>
+    have hx : x.height ≠ i'.height := (find_none_iff.mp h) x (by simp)
+    rw [replaceInst_cons_other hx, ih]
+    rw [find_cons] at h
+    simpa [hx] using h
+
+/-- replacing an instance by one of the same height does not change which heights are in the container -/
+theorem find_replaceInst_isSome (i' : Inst) (l : List Inst) (k : Nat) :
+    (find (replaceInst i' l) k).isSome = (find l k).isSome := by
+  by_cases hk : k = i'.height
+  · subst hk
+    cases hf : find l i'.height with
+    | none => rw [replaceInst_of_none hf, hf]
+    | some i => rw [find_replaceInst_same hf rfl]; rfl
+  · rw [find_replaceInst_other (by omega)]
+
+theorem TopOk.replace' {c : Nat} {l : List Inst} (h : TopOk c l) (i' : Inst) : TopOk c (replaceInst i' l) := by
+  cases hf : find l i'.height with
+  | none => rw [replaceInst_of_none hf]; exact h
+  | some i => exact h.replace ⟨i, find_some_mem hf, find_some_height hf⟩
+
+def AtTop (c : Ctrl) : Prop := (find c.insts c.height).isSome = true
+
+/-! ## historical store -/
+
+theorem histGet_cons (k : Nat) (v : Stored) (rest : List (Nat × Stored)) (h : Nat) :
+    histGet ((k, v) :: rest) h = if k = h then some v else histGet rest h := by
+  unfold histGet
+  rw [List.find?_cons]
+  by_cases hk : k = h
+  · simp [hk]
+  · have : (k == h) = false := by simpa using hk
+    simp [this, hk]
+
+theorem histGet_histPut (k : Nat) (v : Stored) (l : List (Nat × Stored)) (h : Nat) :
+    histGet (histPut k v l) h = if h = k then some v else histGet l h := by
+  induction l with
+  | nil =>
+    unfold histPut
+    rw [histGet_cons]
+    by_cases hk : k = h
+    · simp [hk]
+    · have : ¬ h = k := fun e => hk e.symm
+      simp [hk, this, histGet]
+  | cons e rest ih =>
+    obtain ⟨k', v'⟩ := e
+    unfold histPut
+    by_cases h1 : k' = k
+    · simp only [h1, if_true]
+      rw [histGet_cons, histGet_cons]
+      by_cases hk : k = h
+      · simp [hk]
+      · have : ¬ h = k := fun e => hk e.symm
+        simp [hk, this]
+    · simp only [h1, if_false]
+      by_cases h2 : k < k'
+      · simp only [h2, if_true]
+        rw [histGet_cons]
+        by_cases hk : k = h
+        · simp [hk]
+        · have : ¬ h = k := fun e => hk e.symm
+          simp [hk, this]
+      · simp only [h2, if_false]
+        rw [histGet_cons, histGet_cons, ih]
+        by_cases hk' : k' = h
+        · have : ¬ h = k := by omega
+          simp [hk', this]
+        · simp [hk']
+
+/-- keys of the historical store are the heights of the records -/
+def HistOk (l : List (Nat × Stored)) : Prop := ∀ h s, histGet l h = some s → s.inst.height = h
+
+/-! ## the store with the `replaces` guard -/
+
+theorem replaces_some {p next : Stored} (h : replaces (some p) next = true) :
+    p.inst.height < next.inst.height ∨
+    (p.inst.height = next.inst.height ∧ p.cert.signers.length < next.cert.signers.length) := by
+  unfold replaces at h
+  simp only at h
+  split at h
+  · exact Or.inl (by simpa using h)
+  · rename_i heq
+    exact Or.inr ⟨by simpa using heq, by simpa using h⟩
+
+theorem not_replaces {prev : Option Stored} {next : Stored} (h : replaces prev next = false) :
+    ∃ p, prev = some p ∧ (next.inst.height < p.inst.height ∨
+      (p.inst.height = next.inst.height ∧ next.cert.signers.length ≤ p.cert.signers.length)) := by
+  unfold replaces at h
+  cases prev with
+  | none => simp at h
+  | some p =>
+    refine ⟨p, rfl, ?_⟩
+    simp only at h
+    split at h
+    · rename_i hne
+      have : ¬ p.inst.height < next.inst.height := by simpa using h
+      left; omega
+    · rename_i heq
+      have heq' : p.inst.height = next.inst.height := by simpa using heq
+      have : ¬ p.cert.signers.length < next.cert.signers.length := by simpa using h
+      right; exact ⟨heq', by omega⟩
+
+/-- the record `storeSave` writes for (i, m) -/
+def recOf (i : Inst) (m : Msg) : Stored := ⟨{ trim i with stopped := false }, m⟩
+
+theorem recOf_height (i : Inst) (m : Msg) : (recOf i m).inst.height = i.height := rfl
+
+theorem storeSave_highest (st : Store) (i : Inst) (m : Msg) (th ah : Bool) :
+    (storeSave st ⟨i, m⟩ th ah).highest = st.highest ∨
+    (ah = true ∧ replaces st.highest (recOf i m) = true ∧ (storeSave st ⟨i, m⟩ th ah).highest = some (recOf i m)) := by
+  unfold storeSave
+  simp only
+  cases ah
+  · left; simp
+  · cases hr : replaces st.highest { inst := { trim i with stopped := false }, cert := m }
+    · left; simp
+    · right; exact ⟨rfl, hr, by simp [recOf]⟩
+
+theorem storeSave_histOk {st : Store} (hok : HistOk st.hist) (i : Inst) (m : Msg) (th ah : Bool) :
+    HistOk (storeSave st ⟨i, m⟩ th ah).hist := by
+  unfold storeSave
+  simp only
+  split
+  · intro h s hs
+    rw [histGet_histPut] at hs
+    split at hs
+    · rename_i hh; cases hs; exact hh.symm
+    · exact hok h s hs
+  · exact hok
+
+/-- what a `saveFound` can do to the highest record -/
+theorem saveFound_highest (c : Ctrl) (st : Store) (h : Nat) (m : Msg) :
+    (saveFound c st h m).highest = st.highest ∨
+    (c.height ≤ h ∧ ∃ i, find c.insts h = some i ∧ replaces st.highest (recOf i m) = true ∧
+      (saveFound c st h m).highest = some (recOf i m)) := by
+  unfold saveFound
+  cases hf : find c.insts h with
+  | none => exact Or.inl rfl
+  | some i =>
+    have hih := find_some_height hf
+    simp only
+    unfold saveInstance
+    by_cases hhi : c.height ≤ i.height
+    · cases c.full
+      · simp only [hhi, decide_true, if_true, Bool.false_eq_true, if_false]
+        rcases storeSave_highest st i m false true with hu | ⟨_, hr, hw⟩
+        · exact Or.inl hu
+        · exact Or.inr ⟨by omega, i, rfl, hr, hw⟩
+      · simp only [hhi, decide_true, if_true]
+        rcases storeSave_highest st i m true true with hu | ⟨_, hr, hw⟩
+        · exact Or.inl hu
+        · exact Or.inr ⟨by omega, i, rfl, hr, hw⟩
+    · left
+      cases c.full
+      · simp [hhi]
+      · simp only [hhi, decide_false, if_true, Bool.false_eq_true, if_false]
+        rcases storeSave_highest st i m true false with hu | ⟨hc, _⟩
+        · exact hu
+        · cases hc
+
+theorem saveFound_histOk {c : Ctrl} {st : Store} (hok : HistOk st.hist) (h : Nat) (m : Msg) :
+    HistOk (saveFound c st h m).hist := by
+  unfold saveFound
+  cases find c.insts h with
+  | none => exact hok
+  | some i =>
+    simp only
+    unfold saveInstance
+    simp only
+    cases c.full <;> cases decide (c.height ≤ i.height)
+    · exact hok
+    · exact storeSave_histOk hok i m false true
+    · exact storeSave_histOk hok i m true false
+    · exact storeSave_histOk hok i m true true
+
+/-- a save of the instance AT (or above) the controller height leaves a highest record of that height — the new one,
+    or a stored one of the same height with at least as many signers -/
+theorem saveFound_stores {c : Ctrl} {st : Store} {h : Nat} {m : Msg} {i : Inst} (hf : find c.insts h = some i)
+    (hle : c.height ≤ h) (hst : ∀ a, st.highest = some a → a.inst.height ≤ h) :
+    ∃ b, (saveFound c st h m).highest = some b ∧ b.inst.height = h := by
+  have hih := find_some_height hf
+  unfold saveFound
+  rw [hf]
+  simp only
+  unfold saveInstance
+  have hd : decide (c.height ≤ i.height) = true := by simp; omega
+  have key : ∀ th, ∃ b, (storeSave st ⟨i, m⟩ th true).highest = some b ∧ b.inst.height = h := by
+    intro th
+    unfold storeSave
+    simp only
+    cases hr : replaces st.highest { inst := { trim i with stopped := false }, cert := m }
+    · obtain ⟨p, hp, hcase⟩ := not_replaces hr
+      refine ⟨p, by simp [hp], ?_⟩
+      have := hst p hp
+      rcases hcase with hlt | ⟨heq, _⟩
+      · have : i.height < p.inst.height := hlt
+        omega
+      · have : p.inst.height = i.height := heq
+        omega
+    · exact ⟨{ inst := { trim i with stopped := false }, cert := m }, by simp, hih⟩
+  cases c.full
+  · simpa [hd] using key false
+  · simpa [hd] using key true
+
+/-- `saveFound` looks at the controller only through `full`, the container and `c.height ≤ h` -/
+theorem saveFound_congr {c c' : Ctrl} (st : Store) (h : Nat) (m : Msg) (hi : c'.insts = c.insts) (hf : c'.full = c.full)
+    (hh : c'.height ≤ h ↔ c.height ≤ h) : saveFound c' st h m = saveFound c st h m := by
+  unfold saveFound
+  rw [hi]
+  cases hfd : find c.insts h with
+  | none => rfl
+  | some i =>
+    have hih := find_some_height hfd
+    simp only
+    unfold saveInstance
+    rw [hf]
+    have : decide (c'.height ≤ i.height) = decide (c.height ≤ i.height) := by
+      rw [hih]; exact decide_eq_decide.mpr hh
+    rw [this]
+
+/-! ## the invariant -/
 
 structure CInv (c : Ctrl) (st : Store) : Prop where
+  /-- everything in the container is at or below the controller height, only the head may be AT it -/
   top : TopOk c.height c.insts
+  /-- the stored highest is at or below the controller height -/
   le : ∀ a, st.highest = some a → a.inst.height ≤ c.height
-  wf : ∀ a, st.highest = some a → StoredWf a
-  live : ∀ a, st.highest = some a → a.inst.height = c.height →
-      ∃ i rest, c.insts = i :: rest ∧ i.height = c.height ∧ Carries i a
+  /-- … and when it is AT the controller height, that height's instance is in the container -/
+  live : ∀ a, st.highest = some a → a.inst.height = c.height → AtTop c
+  hist : HistOk st.hist
 
 theorem CInv.init (full : Bool) : CInv (newCtrl full) ⟨none, []⟩ :=
-  ⟨trivial, by intro a h; simp at h, by intro a h; simp at h, by intro a h; simp at h⟩
+  ⟨trivial, by intro a h; simp at h, by intro a h; simp at h, by intro h s hs; simp [histGet] at hs⟩
 
 /-! ## StartNewInstance -/
 
@@ -49,117 +278,76 @@ theorem startNewInstance_ok {c c' : Ctrl} {h : Nat} (hs : startNewInstance c h =
 theorem stop_height (h : Nat) (x : Inst) : (if x.height == h then x else { x with stopped := true }).height = x.height := by
   split <;> rfl
 
+theorem start_lt {c c' : Ctrl} {h : Nat} (top : TopOk c.height c.insts) (hs : startNewInstance c h = .ok c') :
+    ∀ x ∈ c.insts, x.height < (newInst h).height := by
+  obtain ⟨hle, hnone, _⟩ := startNewInstance_ok hs
+  intro x hx
+  have h1 := top.le x hx
+  have h2 := (find_none_iff.mp hnone) x hx
+  show x.height < h
+  omega
+
+theorem start_atTop {c c' : Ctrl} {h : Nat} (top : TopOk c.height c.insts) (hs : startNewInstance c h = .ok c') :
+    AtTop c' := by
+  obtain ⟨_, _, hh, _, hins⟩ := startNewInstance_ok hs
+  unfold AtTop
+  rw [hins, hh, addNew_of_lt (start_lt top hs)]
+  simp [find_cons, newInst]
+
 theorem CInv.start {c c' : Ctrl} {st : Store} {h : Nat} (inv : CInv c st) (hs : startNewInstance c h = .ok c') :
     CInv c' st := by
-  obtain ⟨hle, hnone, hh, _, hins⟩ := startNewInstance_ok hs
-  have hlt : ∀ x ∈ c.insts, x.height < (newInst h).height := by
-    intro x hx
-    have h1 := inv.top.le x hx
-    have h2 := (find_none_iff.mp hnone) x hx
-    show x.height < h
-    omega
-  refine ⟨?_, ?_, inv.wf, ?_⟩
-  · rw [hins, hh, addNew_of_lt hlt]
-    exact (TopOk.push (newInst h) hlt 1).map _ (stop_height h)
+  obtain ⟨hle, _, hh, _, hins⟩ := startNewInstance_ok hs
+  refine ⟨?_, ?_, fun _ _ _ => start_atTop inv.top hs, inv.hist⟩
+  · rw [hins, hh, addNew_of_lt (start_lt inv.top hs)]
+    exact (TopOk.push (newInst h) (start_lt inv.top hs) 1).map _ (stop_height h)
   · intro a ha; rw [hh]; exact Nat.le_trans (inv.le a ha) hle
-  · intro a ha hah
-    rw [hh] at hah
-    have h1 := inv.le a ha
-    have hc : c.height = h := by omega
-    obtain ⟨i, rest, hl, hih, _⟩ := inv.live a ha (by omega)
-    have := (find_none_iff.mp hnone) i (by rw [hl]; simp)
-    omega
 
 /-! ## compaction -/
 
-theorem Carries.trim {i : Inst} {a : Stored} (h : Carries i a) : Carries (trim i) a := by
-  refine ⟨h.1, h.2.1, ?_⟩
-  intro hr
-  rw [longest_trim i _ _ (by rw [h.2.1]; exact hr)]
-  exact h.2.2 hr
+theorem compactAt_height (c : Ctrl) (h : Nat) : (compactAt c h).height = c.height := by
+  unfold compactAt; split <;> rfl
+
+theorem compactAt_full (c : Ctrl) (h : Nat) : (compactAt c h).full = c.full := by
+  unfold compactAt; split <;> rfl
+
+theorem compact_find_isSome (c : Ctrl) (h x : Nat) : (find (compactAt c h).insts x).isSome = (find c.insts x).isSome := by
+  unfold compactAt
+  cases find c.insts h with
+  | none => rfl
+  | some i => exact find_replaceInst_isSome _ _ _
+
+theorem compact_atTop {c : Ctrl} (h : Nat) (hx : AtTop c) : AtTop (compactAt c h) := by
+  unfold AtTop
+  rw [compactAt_height, compact_find_isSome]
+  exact hx
 
 theorem CInv.compact {c : Ctrl} {st : Store} (inv : CInv c st) (h : Nat) : CInv (compactAt c h) st := by
-  unfold compactAt
-  cases hf : find c.insts h with
-  | none => exact inv
-  | some i =>
-    have hih := find_some_height hf
-    refine ⟨?_, inv.le, inv.wf, ?_⟩
-    · exact inv.top.replace ⟨i, find_some_mem hf, by rw [trim_height]⟩
-    · intro a ha hah
-      obtain ⟨i0, rest, hl, hi0, hc⟩ := inv.live a ha hah
-      show ∃ i' rest', replaceInst (trim i) c.insts = i' :: rest' ∧ _
-      rw [hl]
-      by_cases hh : h = c.height
-      · have : i = i0 := by
-          rw [hl, find_cons] at hf
-          simp [hi0, hh] at hf
-          exact hf.symm
-        subst this
-        rw [replaceInst_cons_same (by rw [trim_height])]
-        exact ⟨trim i, rest, rfl, hi0, hc.trim⟩
-      · rw [replaceInst_cons_other (by rw [trim_height]; omega)]
-        exact ⟨i0, _, rfl, hi0, hc⟩
+  refine ⟨?_, by rw [compactAt_height]; exact inv.le, ?_, inv.hist⟩
+  · rw [compactAt_height]
+    unfold compactAt
+    cases find c.insts h with
+    | none => exact inv.top
+    | some i => exact inv.top.replace' _
+  · intro a ha hah
+    rw [compactAt_height] at hah
+    exact compact_atTop h (inv.live a ha hah)
 
 /-! ## SaveInstance -/
 
-/-- what a `saveFound` can do to the highest record -/
-theorem saveFound_highest (c : Ctrl) (st : Store) (h : Nat) (m : Msg) :
-    (saveFound c st h m).highest = st.highest ∨
-    (c.height ≤ h ∧ ∃ i, find c.insts h = some i ∧
-      (saveFound c st h m).highest = some ⟨{ trim i with stopped := false }, m⟩) := by
-  unfold saveFound
-  cases hf : find c.insts h with
-  | none => exact Or.inl rfl
-  | some i =>
-    have hih := find_some_height hf
-    simp only
-    unfold saveInstance
-    by_cases hhi : c.height ≤ i.height
-    · right
-      refine ⟨by omega, i, rfl, ?_⟩
-      cases c.full <;> simp [hhi, storeSave]
-    · left
-      cases c.full <;> simp [hhi, storeSave]
-
-/-- `saveFound` looks at the controller only through `full`, the container and `c.height ≤ h` -/
-theorem saveFound_congr {c c' : Ctrl} (st : Store) (h : Nat) (m : Msg) (hi : c'.insts = c.insts) (hf : c'.full = c.full)
-    (hh : c'.height ≤ h ↔ c.height ≤ h) : saveFound c' st h m = saveFound c st h m := by
-  unfold saveFound
-  rw [hi]
-  cases hfd : find c.insts h with
-  | none => rfl
-  | some i =>
-    have hih := find_some_height hfd
-    simp only
-    unfold saveInstance
-    rw [hf]
-    have : decide (c'.height ≤ i.height) = decide (c.height ≤ i.height) := by
-      rw [hih]; exact decide_eq_decide.mpr hh
-    rw [this]
-
-/-- the instance of height `h`, if in the container, is decided and covers `m` (unless trimmed) -/
-def Fresh (l : List Inst) (h : Nat) (m : Msg) : Prop :=
-  ∀ i, find l h = some i → i.decided = true ∧ (i.round ≤ m.round → m.signers.length ≤ longest i.commits m.round m.root)
-
-theorem CInv.saveFound {c : Ctrl} {st : Store} {h : Nat} {m : Msg} (inv : CInv c st) (hh : h ≤ c.height)
-    (hfr : Fresh c.insts h m) : CInv c (saveFound c st h m) := by
-  rcases saveFound_highest c st h m with hs | ⟨hle, i, hf, hs⟩
-  · exact ⟨inv.top, by rw [hs]; exact inv.le, by rw [hs]; exact inv.wf, by rw [hs]; exact inv.live⟩
-  · have hhc : h = c.height := by omega
-    have hih := find_some_height hf
-    obtain ⟨hdec, hmem⟩ := hfr i hf
-    refine ⟨inv.top, ?_, ?_, ?_⟩
-    · intro a ha; rw [hs] at ha; cases ha; show i.height ≤ c.height; omega
-    · intro a ha; rw [hs] at ha; cases ha
-      refine ⟨hdec, ?_⟩
-      intro hr
-      show m.signers.length ≤ longest (trim i).commits m.round m.root
-      rw [longest_trim i _ _ hr]
-      exact hmem hr
-    · intro a ha _; rw [hs] at ha; cases ha
-      obtain ⟨rest, hl⟩ := inv.top.find_head (hhc ▸ hf)
-      exact ⟨i, rest, hl, by omega, hdec, rfl, hmem⟩
+theorem CInv.saveFound {c : Ctrl} {st : Store} {h : Nat} {m : Msg} (inv : CInv c st) (hh : h ≤ c.height) :
+    CInv c (saveFound c st h m) := by
+  refine ⟨inv.top, ?_, ?_, saveFound_histOk inv.hist h m⟩
+  · intro a ha
+    rcases saveFound_highest c st h m with hs | ⟨_, i, hf, _, hs⟩
+    · rw [hs] at ha; exact inv.le a ha
+    · rw [hs] at ha; cases ha
+      rw [recOf_height, find_some_height hf]; exact hh
+  · intro a ha hah
+    rcases saveFound_highest c st h m with hs | ⟨hle, i, hf, _, hs⟩
+    · rw [hs] at ha; exact inv.live a ha hah
+    · have hhc : h = c.height := by omega
+      unfold AtTop
+      rw [← hhc, hf]; rfl
 
 /-! ## UponDecided -/
 
@@ -167,147 +355,192 @@ theorem instanceForHeight_mem {c : Ctrl} {st : Store} {h : Nat} {i : Inst} (hf :
     instanceForHeight c st h = some (i, true) := by
   simp [instanceForHeight, hf]
 
-theorem instanceForHeight_notmem {c : Ctrl} {st : Store} {h : Nat} (hf : find c.insts h = none) :
-    instanceForHeight c st h = none ∨ ∃ s, instanceForHeight c st h = some (s, false) := by
+theorem instanceForHeight_notmem {c : Ctrl} {st : Store} {h : Nat} (hok : HistOk st.hist) (hf : find c.insts h = none) :
+    instanceForHeight c st h = none ∨ ∃ x, x.height = h ∧ instanceForHeight c st h = some (x, false) := by
   unfold instanceForHeight
   rw [hf]
   simp only
   cases c.full
   · left; rfl
-  · cases histGet st.hist h with
+  · cases hh : histGet st.hist h with
     | none => left; rfl
-    | some s => right; exact ⟨s.inst, rfl⟩
+    | some s => right; exact ⟨s.inst, hok h s hh, rfl⟩
 
-/-- container after the branch, when the instance is in memory -/
+/-- the branch of `UponDecided` when the instance is in memory: nothing changes and nothing is saved (decided before,
+    not more signers), or the instance is replaced by a decided one of the same height and saved -/
 theorem decidedBranch_mem {c : Ctrl} {st : Store} {h : Nat} {m : Msg} {i : Inst} (hf : find c.insts h = some i) :
     ((decidedBranch c st h m).1 = c.insts ∧ (decidedBranch c st h m).2 = false ∧ i.decided = true) ∨
     (∃ i', i'.height = h ∧ (decidedBranch c st h m).1 = replaceInst i' c.insts ∧ (decidedBranch c st h m).2 = true ∧
-      i'.decided = true ∧ m ∈ i'.commits ∧
-      ((i.decided = false ∧ i'.round = m.round) ∨
-       (i.decided = true ∧ i'.round = i.round ∧ i'.commits = i.commits ++ [m] ∧
-          longest i.commits m.round m.root < m.signers.length))) := by
+      i'.decided = true) := by
   have hih := find_some_height hf
+  have hsome : (find c.insts h).isSome = true := by rw [hf]; rfl
   unfold decidedBranch
   rw [instanceForHeight_mem hf]
-  simp only
+  simp only [if_true, hsome]
   by_cases hd : i.decided = true
   · by_cases hl : longest i.commits m.round m.root < m.signers.length
     · right
-      refine ⟨{ i with commits := i.commits ++ [m] }, hih, by simp [hd, hl], by simp [hd, hl], hd, by simp,
-        Or.inr ⟨hd, rfl, rfl, hl⟩⟩
+      exact ⟨{ i with commits := i.commits ++ [m] }, hih, by simp [hd, hl], by simp [hd, hl], hd⟩
     · left
       simp [hd, hl]
   · have hd' : i.decided = false := by simpa using hd
     right
-    refine ⟨{ i with decided := true, round := m.round, commits := i.commits ++ [m] }, hih, by simp [hd'], by simp [hd'],
-      rfl, by simp, Or.inl ⟨hd', rfl⟩⟩
+    exact ⟨{ i with decided := true, round := m.round, commits := i.commits ++ [m] }, hih, by simp [hd'], by simp [hd'], rfl⟩
 
-/-- container after the branch, when the instance is not in memory: unchanged, or the new decided instance is added -/
-theorem decidedBranch_notmem {c : Ctrl} {st : Store} {h : Nat} {m : Msg} (hf : find c.insts h = none) :
-    (decidedBranch c st h m).1 = c.insts ∨
-    ((decidedBranch c st h m).1 = addNew c.insts ⟨h, m.round, true, false, [m]⟩ ∧ (decidedBranch c st h m).2 = true) := by
-  unfold decidedBranch
-  rcases instanceForHeight_notmem (st := st) hf with hn | ⟨s, hs⟩
-  · rw [hn]; right; exact ⟨rfl, rfl⟩
-  · rw [hs]; left
-    simp only
-    split
-    · simp
-    · split <;> simp
+/-- … and when it is not in memory: a decided-or-about-to-be-decided instance `x` of that height (new, or reloaded from
+    storage) is added (if it fits); if it is in the container afterwards it is decided (as it was, or updated in place);
+    the save flag is set -/
+theorem decidedBranch_notmem {c : Ctrl} {st : Store} {h : Nat} {m : Msg} (hok : HistOk st.hist) (hf : find c.insts h = none) :
+    (decidedBranch c st h m).2 = true ∧
+    ∃ x, x.height = h ∧
+      (((decidedBranch c st h m).1 = addNew c.insts x ∧
+          (x.decided = true ∨ (find (addNew c.insts x) h).isSome = false)) ∨
+       ∃ i', i'.height = h ∧ i'.decided = true ∧ (decidedBranch c st h m).1 = replaceInst i' (addNew c.insts x)) := by
+  rcases instanceForHeight_notmem hok hf with hn | ⟨x, hx, hs⟩
+  · refine ⟨?_, ⟨h, m.round, true, false, [m]⟩, rfl, Or.inl ⟨?_, Or.inl rfl⟩⟩
+    · unfold decidedBranch; rw [hn]
+    · unfold decidedBranch; rw [hn]
+  · have h2 : (decidedBranch c st h m).2 = true := by
+      unfold decidedBranch
+      rw [hs]
+      rcases Bool.eq_false_or_eq_true x.decided with hd | hd <;>
+        by_cases hl : longest x.commits m.round m.root < m.signers.length <;> simp [hd, hl]
+    refine ⟨h2, x, hx, ?_⟩
+    by_cases hin : (find (addNew c.insts x) h).isSome = true
+    · rcases Bool.eq_false_or_eq_true x.decided with hd | hd
+      · by_cases hl : longest x.commits m.round m.root < m.signers.length
+        · right
+          refine ⟨{ x with commits := x.commits ++ [m] }, hx, hd, ?_⟩
+          unfold decidedBranch; rw [hs]; simp [hd, hl, hin]
+        · left
+          refine ⟨?_, Or.inl hd⟩
+          unfold decidedBranch; rw [hs]; simp [hd, hl]
+      · right
+        refine ⟨{ x with decided := true, round := m.round, commits := x.commits ++ [m] }, hx, rfl, ?_⟩
+        unfold decidedBranch; rw [hs]; simp [hd, hin]
+    · have hin' : (find (addNew c.insts x) h).isSome = false := by simpa using hin
+      left
+      refine ⟨?_, Or.inr hin'⟩
+      unfold decidedBranch; rw [hs]
+      rcases Bool.eq_false_or_eq_true x.decided with hd | hd <;>
+        by_cases hl : longest x.commits m.round m.root < m.signers.length <;> simp [hd, hl, hin']
 
-theorem decidedBranch_fresh (c : Ctrl) (st : Store) (h : Nat) (m : Msg) (hsave : (decidedBranch c st h m).2 = true) :
-    Fresh (decidedBranch c st h m).1 h m := by
-  intro x hx
+/-- heights in the container after the branch: an element of another height was there before -/
+theorem decidedBranch_mem_other {c : Ctrl} {st : Store} {h : Nat} {m : Msg} (hok : HistOk st.hist) {y : Inst}
+    (hy : y ∈ (decidedBranch c st h m).1) (hyh : y.height ≠ h) : y ∈ c.insts := by
   cases hf : find c.insts h with
   | some i =>
-    rcases decidedBranch_mem (st := st) (m := m) hf with ⟨_, h2, _⟩ | ⟨i', hi', h1, _, hd, hm, _⟩
-    · rw [h2] at hsave; cases hsave
-    · rw [h1, find_replaceInst_same hf hi'] at hx; cases hx
-      exact ⟨hd, fun _ => longest_ge hm⟩
+    rcases decidedBranch_mem (st := st) (m := m) hf with ⟨h1, _, _⟩ | ⟨i', hi', h1, _, _⟩
+    · rw [h1] at hy; exact hy
+    · rw [h1] at hy
+      rcases mem_replaceInst hy with rfl | hy
+      · exact absurd hi' hyh
+      · exact hy
   | none =>
-    rcases decidedBranch_notmem (st := st) (m := m) hf with h1 | ⟨h1, _⟩
-    · rw [h1, hf] at hx; cases hx
-    · rw [h1] at hx
-      have hmem := find_some_mem hx
-      have hxh := find_some_height hx
-      rcases mem_addNew hmem with rfl | hmem
-      · exact ⟨rfl, fun _ => longest_ge (by simp)⟩
-      · exact absurd hxh ((find_none_iff.mp hf) x hmem)
+    obtain ⟨_, x, hx, ⟨h1, _⟩ | ⟨i', hi', _, h1⟩⟩ := decidedBranch_notmem (m := m) hok hf
+    · rw [h1] at hy
+      rcases mem_addNew hy with rfl | hy
+      · exact absurd hx hyh
+      · exact hy
+    · rw [h1] at hy
+      rcases mem_replaceInst hy with rfl | hy
+      · exact absurd hi' hyh
+      · rcases mem_addNew hy with rfl | hy
+        · exact absurd hx hyh
+        · exact hy
+
+/-- after the branch the instance of the (possibly bumped) controller height is in the container, provided the message
+    is at or above the old height, or the old height's instance was there -/
+theorem branch_atTop {c : Ctrl} {st : Store} (top : TopOk c.height c.insts) (hok : HistOk st.hist) (h : Nat) (m : Msg)
+    (hyp : c.height ≤ h ∨ AtTop c) :
+    (find (decidedBranch c st h m).1 (if c.height < h then h else c.height)).isSome = true := by
+  unfold AtTop at hyp
+  cases hf : find c.insts h with
+  | some i =>
+    have hih := find_some_height hf
+    have hle : h ≤ c.height := hih ▸ top.le i (find_some_mem hf)
+    have hhe : (if c.height < h then h else c.height) = c.height := by split <;> omega
+    rw [hhe]
+    have hold : (find c.insts c.height).isSome = true := by
+      rcases hyp with hyp | hyp
+      · have : h = c.height := by omega
+        rw [← this, hf]; rfl
+      · exact hyp
+    rcases decidedBranch_mem (st := st) (m := m) hf with ⟨h1, _, _⟩ | ⟨i', _, h1, _, _⟩
+    · rw [h1]; exact hold
+    · rw [h1, find_replaceInst_isSome]; exact hold
+  | none =>
+    have hne := find_none_iff.mp hf
+    obtain ⟨_, x, hx, hcase⟩ := decidedBranch_notmem (m := m) hok hf
+    have hadd : (find (addNew c.insts x) (if c.height < h then h else c.height)).isSome = true := by
+      by_cases hge : c.height ≤ h
+      · have hall : ∀ y ∈ c.insts, y.height < x.height := by
+          intro y hy
+          have h1 := top.le y hy
+          have h2 := hne y hy
+          omega
+        have hhe : (if c.height < h then h else c.height) = h := by split <;> omega
+        rw [hhe, addNew_of_lt hall, find_cons]
+        simp [hx]
+      · have hhe : (if c.height < h then h else c.height) = c.height := by split <;> omega
+        rw [hhe]
+        rcases hyp with hyp | hyp
+        · omega
+        · cases hf0 : find c.insts c.height with
+          | none => rw [hf0] at hyp; cases hyp
+          | some i0 =>
+            obtain ⟨rest, hl0⟩ := top.find_head hf0
+            have hi0 := find_some_height hf0
+            rw [hl0, addNew_cons_ge (by omega), find_cons]
+            simp [hi0]
+    rcases hcase with ⟨h1, _⟩ | ⟨i', _, _, h1⟩
+    · rw [h1]; exact hadd
+    · rw [h1, find_replaceInst_isSome]; exact hadd
 
 /-- the container update + height bump of `UponDecided` keeps the invariant (store not yet touched) -/
 theorem CInv.branch {c : Ctrl} {st : Store} (inv : CInv c st) (h : Nat) (m : Msg) :
     CInv { c with insts := (decidedBranch c st h m).1, height := if c.height < h then h else c.height } st := by
-  cases hf : find c.insts h with
-  | some i =>
-    have hih := find_some_height hf
-    have hle : h ≤ c.height := hih ▸ inv.top.le i (find_some_mem hf)
-    have hhe : (if c.height < h then h else c.height) = c.height := by
-      split
-      · omega
-      · rfl
-    rw [hhe]
-    rcases decidedBranch_mem (st := st) (m := m) hf with ⟨h1, _, _⟩ | ⟨i', hi', h1, _, hd', hm', hcase⟩
-    · rw [h1]; exact inv
-    · rw [h1]
-      refine ⟨inv.top.replace ⟨i, find_some_mem hf, by omega⟩, inv.le, inv.wf, ?_⟩
-      intro a ha hah
-      obtain ⟨i0, rest, hl, hi0, hc⟩ := inv.live a ha hah
-      show ∃ i'' rest', replaceInst i' c.insts = i'' :: rest' ∧ _
-      rw [hl]
-      by_cases hh : h = c.height
-      · have hii : i = i0 := by
-          rw [hl, find_cons] at hf
-          simp [hi0, hh] at hf
-          exact hf.symm
-        subst hii
-        rw [replaceInst_cons_same (by omega)]
-        refine ⟨i', rest, rfl, by show i'.height = c.height; omega, hd', ?_, ?_⟩
-        · rcases hcase with ⟨hnd, _⟩ | ⟨_, hr, _, _⟩
-          · rw [hc.1] at hnd; cases hnd
-          · rw [hr]; exact hc.2.1
-        · intro hr
-          rcases hcase with ⟨hnd, _⟩ | ⟨_, _, hcm, _⟩
-          · rw [hc.1] at hnd; cases hnd
-          · rw [hcm]; exact Nat.le_trans (hc.2.2 hr) (longest_append_ge _ _ _ _)
-      · rw [replaceInst_cons_other (by omega)]
-        exact ⟨i0, _, rfl, hi0, hc⟩
-  | none =>
-    rcases decidedBranch_notmem (st := st) (m := m) hf with h1 | ⟨h1, _⟩
-    · rw [h1]
-      have hge : c.height ≤ (if c.height < h then h else c.height) := by split <;> omega
-      refine ⟨inv.top.mono hge, fun a ha => Nat.le_trans (inv.le a ha) hge, inv.wf, ?_⟩
-      intro a ha hah
-      have hale := inv.le a ha
-      have : ¬ c.height < h := by
-        intro hlt; simp only [hlt, if_true] at hah; omega
-      simp only [this, if_false] at hah ⊢
-      exact inv.live a ha hah
-    · rw [h1]
-      by_cases hlt : c.height < h
-      · simp only [hlt, if_true]
-        have hall : ∀ x ∈ c.insts, x.height < (⟨h, m.round, true, false, [m]⟩ : Inst).height := by
-          intro x hx
-          have := inv.top.le x hx
-          show x.height < h
-          omega
-        rw [addNew_of_lt hall]
-        refine ⟨TopOk.push _ hall 1, fun a ha => by have := inv.le a ha; show a.inst.height ≤ h; omega, inv.wf, ?_⟩
-        intro a ha hah
-        have := inv.le a ha
-        have hah' : a.inst.height = h := hah
-        omega
-      · simp only [hlt, if_false]
-        have hne := find_none_iff.mp hf
-        refine ⟨inv.top.addNew _ (by show h ≤ c.height; omega) (fun hh x hx => by
-            have := hne x hx
-            have hh' : h = c.height := hh
-            omega), inv.le, inv.wf, ?_⟩
-        intro a ha hah
-        obtain ⟨i0, rest, hl, hi0, hc⟩ := inv.live a ha hah
-        have hi0ne := hne i0 (by rw [hl]; simp)
-        show ∃ i'' rest', addNew c.insts _ = i'' :: rest' ∧ _
-        rw [hl, addNew_cons_ge (by show ¬ i0.height < h; omega)]
-        exact ⟨i0, _, rfl, hi0, hc⟩
+  have hge : c.height ≤ (if c.height < h then h else c.height) := by split <;> omega
+  refine ⟨?_, fun a ha => Nat.le_trans (inv.le a ha) hge, ?_, inv.hist⟩
+  · -- TopOk
+    show TopOk (if c.height < h then h else c.height) (decidedBranch c st h m).1
+    cases hf : find c.insts h with
+    | some i =>
+      have hih := find_some_height hf
+      have hle : h ≤ c.height := hih ▸ inv.top.le i (find_some_mem hf)
+      have hhe : (if c.height < h then h else c.height) = c.height := by split <;> omega
+      rw [hhe]
+      rcases decidedBranch_mem (st := st) (m := m) hf with ⟨h1, _, _⟩ | ⟨i', _, h1, _, _⟩
+      · rw [h1]; exact inv.top
+      · rw [h1]; exact inv.top.replace' _
+    | none =>
+      have hne := find_none_iff.mp hf
+      obtain ⟨_, x, hx, hcase⟩ := decidedBranch_notmem (m := m) inv.hist hf
+      have hadd : TopOk (if c.height < h then h else c.height) (addNew c.insts x) := by
+        by_cases hlt : c.height < h
+        · simp only [hlt, if_true]
+          have hall : ∀ y ∈ c.insts, y.height < x.height := by
+            intro y hy
+            have := inv.top.le y hy
+            omega
+          rw [addNew_of_lt hall, ← hx]
+          exact TopOk.push x hall 1
+        · simp only [hlt, if_false]
+          exact inv.top.addNew x (by omega) (fun hh y hy => by
+            have := hne y hy
+            omega)
+      rcases hcase with ⟨h1, _⟩ | ⟨i', _, _, h1⟩
+      · rw [h1]; exact hadd
+      · rw [h1]; exact hadd.replace' _
+  · intro a ha hah
+    have hale := inv.le a ha
+    have hah' : a.inst.height = (if c.height < h then h else c.height) := hah
+    have hnlt : ¬ c.height < h := by
+      intro hlt; simp only [hlt, if_true] at hah'; omega
+    simp only [hnlt, if_false] at hah'
+    have := branch_atTop (st := st) inv.top inv.hist h m (Or.inr (inv.live a ha hah'))
+    unfold AtTop
+    exact this
 
 theorem uponDecided_eq (c : Ctrl) (st : Store) (h : Nat) (m : Msg) :
     let c2 : Ctrl := { c with insts := (decidedBranch c st h m).1, height := if c.height < h then h else c.height }
@@ -329,6 +562,8 @@ theorem uponDecided_height_ge (c : Ctrl) (st : Store) (h : Nat) (m : Msg) :
   simp only
   split <;> omega
 
+theorem uponDecided_full (c : Ctrl) (st : Store) (h : Nat) (m : Msg) : (uponDecided c st h m).1.full = c.full := rfl
+
 theorem CInv.uponDecided {c : Ctrl} {st : Store} (inv : CInv c st) (h : Nat) (m : Msg) :
     CInv (uponDecided c st h m).1 (uponDecided c st h m).2.1 := by
   have := uponDecided_eq c st h m
@@ -340,35 +575,77 @@ theorem CInv.uponDecided {c : Ctrl} {st : Store} (inv : CInv c st) (h : Nat) (m 
   · simpa using hb
   · simp only [if_true]
     apply hb.saveFound
-    · simp only; split <;> omega
-    · exact decidedBranch_fresh c st h m hs
+    simp only; split <;> omega
+
+theorem processMsg_cases (q : Nat) (c : Ctrl) (st : Store) (h : Nat) (m : Msg) (ok : Bool) :
+    (processMsg q c st h m ok = (c, st, .err)) ∨
+    (ok = true ∧ q ≤ m.signers.length ∧ processMsg q c st h m ok = uponDecided c st h m) := by
+  unfold processMsg
+  cases ok
+  · left; rfl
+  · by_cases hq : m.signers.length < q
+    · left; simp [hq]
+    · right; exact ⟨rfl, by omega, by simp [hq]⟩
 
 theorem CInv.processMsg {c : Ctrl} {st : Store} (inv : CInv c st) (q h : Nat) (m : Msg) (ok : Bool) :
-    CInv (processMsg q c st h m ok).1 (processMsg q c st h m ok).2.1 := by
-  unfold Ssv.Heights.processMsg
-  split
-  · exact inv
-  · split
-    · exact inv
-    · exact inv.uponDecided h m
+    CInv (Heights.processMsg q c st h m ok).1 (Heights.processMsg q c st h m ok).2.1 := by
+  rcases processMsg_cases q c st h m ok with he | ⟨_, _, he⟩
+  · rw [he]; exact inv
+  · rw [he]; exact inv.uponDecided h m
+
+/-- the controller part of `ProcessMsg` keeps the invariant against the UNCHANGED store (a failed write) -/
+theorem CInv.processMsg_ctrl {c : Ctrl} {st : Store} (inv : CInv c st) (q h : Nat) (m : Msg) (ok : Bool) :
+    CInv (Heights.processMsg q c st h m ok).1 st := by
+  rcases processMsg_cases q c st h m ok with he | ⟨_, _, he⟩
+  · rw [he]; exact inv
+  · rw [he]
+    have := uponDecided_eq c st h m
+    simp only at this
+    rw [this]
+    exact inv.branch h m
+
+theorem processMsg_height_ge (q : Nat) (c : Ctrl) (st : Store) (h : Nat) (m : Msg) (ok : Bool) :
+    c.height ≤ (processMsg q c st h m ok).1.height := by
+  rcases processMsg_cases q c st h m ok with he | ⟨_, _, he⟩
+  · rw [he]; exact Nat.le_refl _
+  · rw [he]; exact (uponDecided_height_ge _ _ _ _).2
+
+theorem processMsg_full (q : Nat) (c : Ctrl) (st : Store) (h : Nat) (m : Msg) (ok : Bool) :
+    (processMsg q c st h m ok).1.full = c.full := by
+  rcases processMsg_cases q c st h m ok with he | ⟨_, _, he⟩ <;> rw [he]
+  rfl
 
 /-! ## LoadHighestInstance -/
 
+theorem loadHighest_some {c : Ctrl} {st : Store} {a : Stored} (ha : st.highest = some a) :
+    (loadHighest c st).1.height = a.inst.height ∧ (loadHighest c st).1.insts = [trim a.inst] ∧
+    (loadHighest c st).1.full = c.full ∧ (loadHighest c st).2 = some a := by
+  unfold loadHighest
+  rw [ha]
+  exact ⟨rfl, rfl, rfl, rfl⟩
+
+theorem loadHighest_none {c : Ctrl} {st : Store} (ha : st.highest = none) :
+    (loadHighest c st).1 = c ∧ (loadHighest c st).2 = none := by
+  unfold loadHighest
+  rw [ha]
+  exact ⟨rfl, rfl⟩
+
+theorem load_atTop {st : Store} {a : Stored} (ha : st.highest = some a) (full : Bool) :
+    AtTop (loadHighest (newCtrl full) st).1 := by
+  obtain ⟨h1, h2, _, _⟩ := loadHighest_some (c := newCtrl full) ha
+  unfold AtTop
+  rw [h1, h2, find_cons]
+  simp [trim_height]
+
 theorem CInv.load {c : Ctrl} {st : Store} (inv : CInv c st) (full : Bool) :
     CInv (loadHighest (newCtrl full) st).1 st := by
-  unfold loadHighest
   cases hs : st.highest with
   | none =>
-    exact ⟨trivial, by intro a h; simp [hs] at h, by intro a h; simp [hs] at h, by intro a h; simp [hs] at h⟩
+    rw [(loadHighest_none hs).1]
+    exact ⟨trivial, by intro a h; simp [hs] at h, by intro a h; simp [hs] at h, inv.hist⟩
   | some s =>
-    have hwf := inv.wf s hs
-    simp only [addNew_nil]
-    refine ⟨⟨Nat.le_refl _, by simp⟩, ?_, inv.wf, ?_⟩
-    · intro a ha; rw [hs] at ha; cases ha; exact Nat.le_refl _
-    · intro a ha _; rw [hs] at ha; cases ha
-      refine ⟨trim s.inst, [], rfl, rfl, hwf.1, rfl, ?_⟩
-      intro hr
-      rw [longest_trim s.inst _ _ hr]
-      exact hwf.2 hr
+    obtain ⟨h1, h2, _, _⟩ := loadHighest_some (c := newCtrl full) hs
+    refine ⟨by rw [h1, h2]; exact ⟨Nat.le_refl _, by simp⟩, ?_, fun _ _ _ => load_atTop hs full, inv.hist⟩
+    intro a ha; rw [hs] at ha; cases ha; rw [h1]; exact Nat.le_refl _
 
 end Ssv.Heights
